@@ -135,3 +135,43 @@ def run_verus_unit(scratch, unit_path, obs):
         r["extraction"] = dict(log=log, functions=fns)
         results[o["id"]] = r
     return results, wall, " ".join(cmd), out
+
+
+# ----------------------------------------------------------------------------- syntactic side condition for C15
+SCAN_PATTERN = r"\b(Cell|RefCell|UnsafeCell|OnceCell|OnceLock|LazyLock|Atomic[A-Za-z0-9]*|Mutex|RwLock|thread_local!|lazy_static!?)\b|\bstatic\s+mut\b"
+# the only shared mutable state the workspace may reach: cpufeatures' detection cache (an AtomicU8 inside the macro)
+SCAN_ALLOWED = [("aes/src/autodetect.rs", "cpufeatures::new!"), ("aes/src/hazmat.rs", "cpufeatures::new!"), ("aes/src/lib.rs", "cpufeatures::new!")]
+
+
+def load_scan_obligations():
+    class _M:
+        pass
+    m = _M(); m.path = Path(__file__); m.crate = "workspace"; m.configs = {}
+    return [dict(name="no_interior_mutability", props=["C15"], tier="quick", kind="syntactic", solver="-", timeout="60", cfg="source",
+                 engine="scan", crate="workspace", module=m, unit="scan", id="workspace.scan.no_interior_mutability",
+                 fn="every */src/**/*.rs", note="no Cell/RefCell/UnsafeCell/Atomic*/Mutex/static mut/thread_local in cipher code; cpufeatures::new! is the only allowed shared state")]
+
+
+def run_scan(scratch, unit, obs):
+    t0 = time.time()
+    hits, allowed, files = [], [], 0
+    for f in sorted(Path(REPO).glob("*/src/**/*.rs")):
+        files += 1
+        rel = str(f.relative_to(REPO))
+        text = f.read_text()
+        mask = vpextract.strip_comments_mask(text)
+        for i, (l, ml) in enumerate(zip(text.split("\n"), mask.split("\n")), 1):
+            if re.search(SCAN_PATTERN, ml):
+                hits.append((rel, i, l.strip()))
+            if "cpufeatures::new!" in ml:
+                (allowed if any(rel == a for a, _ in SCAN_ALLOWED) else hits).append((rel, i, l.strip()))
+    res = {}
+    for o in obs:
+        if hits:
+            res[o["id"]] = dict(status="failed", checks=files, failed=len(hits), covers=None, time=round(time.time() - t0, 2),
+                                failed_checks=[(f"shared mutable state in cipher code: {l}", f, str(n)) for f, n, l in hits[:10]],
+                                raw="\n".join(f"{f}:{n}: {l}" for f, n, l in hits))
+        else:
+            res[o["id"]] = dict(status="success", checks=files, failed=0, covers=None, failed_checks=[], time=round(time.time() - t0, 2),
+                                raw=f"{files} files scanned; allowed: {allowed}")
+    return res, time.time() - t0, "scan " + SCAN_PATTERN, ""
